@@ -144,16 +144,24 @@ func calculateNextQuota(
 		}
 	}
 
-	// The minimum limit quota is 1
-	if next < 1 {
-		next = 1
-	}
 	if next < total*MinimumQuotaPercent {
 		next = total * MinimumQuotaPercent
 	}
 
+	// never allocate more than what is left. remaining is negative when the
+	// upstream is over-committed (e.g. the global limit was lowered), the quota
+	// must shrink then.
 	if next-current > remaining {
 		next = current + remaining
+	}
+	if next > total {
+		next = total
+	}
+
+	// The minimum limit quota is 1, it must be applied after the clamps above
+	// which may leave nothing (or less than nothing) for this client.
+	if next < 1 {
+		next = 1
 	}
 
 	next = math.Ceil(next)
